@@ -64,6 +64,24 @@ def rule_store_after_validate(ctx):
                         c = f.nodes.get(c["a"][0])
                 if c is not None and pol is True and c["k"] == "call" and (c.get("c") or "").endswith("::validate") and c.get("a"):
                     vargs.append(_strip_casts(f, c["a"][0]))
+            # ... and it reaches validate() in its full width: a parameter narrower than the parsed value wraps first
+            for cn, pol in f.guard_conds(f.nblock[x["i"]]):
+                c = f.nodes.get(cn) if cn is not None else None
+                while c is not None and (c["k"] == "cast" or (c["k"] == "un" and c.get("op") == "!")):
+                    c = f.nodes.get(c["a"][0])
+                if c is not None and c["k"] == "call" and (c.get("c") or "").endswith("::validate") and c.get("a"):
+                    a = f.nodes.get(c["a"][0])
+                    inner = a
+                    while inner is not None and inner["k"] == "cast":
+                        inner = f.nodes.get(inner["a"][0])
+                    at = ((inner or {}).get("t") or "").replace("const ", "")
+                    g = db.funcs.get(c.get("cm"))
+                    pt = (g.d["params"][0]["t"].replace("const ", "") if g is not None and g.d.get("params") else "?")
+                    WIDTH = {"long": 64, "long long": 64, "unsigned long": 64, "size_t": 64, "int": 32, "unsigned int": 32, "unsigned": 32, "short": 16, "bool": 1}
+                    if at in WIDTH:
+                        r.check(WIDTH.get(pt, 0) >= WIDTH[at], inst + "/validated-in-full-width", db.loc(f, c),
+                                "validate() takes `%s` but is handed the parsed `%s`: the value is truncated before the range check, so a number "
+                                "far outside the range can wrap into it and is stored without a diagnostic" % (pt, at))
             if vargs:
                 stored = _strip_casts(f, x["a"][1])
                 r.check(stored in vargs, inst + "/stores-what-was-validated", db.loc(f, x),
@@ -503,7 +521,30 @@ def rule_bounded_recursion(ctx):
                 )
         if guarded:
             r.note("%s: guarded by `%s` in %s" % (inst, guarded[2], guarded[0].qn))
-    r.floor(1)
+    # state discipline of the recursion: what load_option_file() overwrites for the nested file (the position used by the
+    # diagnostics) is put back by the include arm after the nested call returns
+    lo = root
+    pol = db.fn("uncrustify::process_option_line", file=OPT)
+    G = {}
+    for n in lo.all_nodes():
+        if n["k"] == "asg" or (n["k"] == "call" and n.get("op") == "=" and "o" in n):
+            lhs = n["a"][0] if n["k"] == "asg" else n["o"]
+            t = lo.nodes.get(lhs)
+            name = expr_str(lo, lhs)
+            if t is not None and (t["k"] == "mem" and name.startswith("cpd.") or t["k"] == "ref" and t.get("d") in ("gv", "sv")):
+                G[name] = n
+    nested = [c for c in pol.all_nodes() if c["k"] == "call" and c.get("c") == "uncrustify::load_option_file"]
+    r.require(nested, "process_option_line no longer calls load_option_file (include directive gone?)")
+    for name, st in sorted(G.items()):
+        r.seen()
+        for c in nested:
+            restores = [m for m in pol.all_nodes() if (m["k"] == "asg" and expr_str(pol, m["a"][0]) == name)
+                        or (m["k"] == "call" and m.get("op") == "=" and "o" in m and expr_str(pol, m["o"]) == name)]
+            w = pol.exit_reachable_avoiding(c["i"], lambda y: any(y["i"] == m["i"] for m in restores))
+            r.check(not w, "include/restores/%s" % name, db.loc(pol, c),
+                    "load_option_file() overwrites `%s` for the included file, and the include arm of process_option_line() can return without "
+                    "putting it back: diagnostics for the rest of the including file name the wrong position" % name)
+    r.floor(2)
 
 
 RULES = [rule_store_after_validate, rule_fail_warns, rule_no_silent_line, rule_no_throw, rule_unsigned_bounded, rule_nl_max_guard, rule_bounded_recursion]
